@@ -4,3 +4,4 @@ import ArimProofs.C15
 import ArimProofs.C20
 import ArimProofs.C18
 import ArimProofs.C14
+import ArimProofs.C02
